@@ -227,19 +227,29 @@ class GatedEvent:
 
 
 class FutureProxy:
+    """the future returned to `execute`; the gate `wait` is the first `result()` call (an implementation that polls
+    `result(timeout)` in slices passes the gate once)"""
+
     def __init__(self, fut, tid):
-        self.fut, self.tid = fut, tid
+        self.fut, self.tid, self.gated = fut, tid, False
+
+    def _mark(self):
+        j = W.jobs.get(self.tid)
+        if j is not None and j['fut'] is self.fut:
+            j['consumed'] = True
 
     def result(self, timeout=None):
-        W.gates.park(self.tid, 'wait')
+        if not self.gated:
+            self.gated = True
+            W.gates.park(self.tid, 'wait')
         try:
             return self.fut.result(timeout=timeout)
         finally:
-            j = W.jobs.get(self.tid)
-            if j is not None and j['fut'] is self.fut:
-                j['consumed'] = True
+            if self.fut.done():
+                self._mark()
 
     def cancel(self):
+        self._mark()
         return self.fut.cancel()
 
     def __getattr__(self, n):
